@@ -224,7 +224,9 @@ impl<'a> VectorIndex<'a> for WaveletMatrix {
         if !self.contains(value) {
             return None;
         }
-        self.data.map_up_with(self.start(value) + rank, value)
+        // A rank that does not fit in `usize` together with the starting offset cannot exist.
+        let index = self.start(value).checked_add(rank)?;
+        self.data.map_up_with(index, value)
     }
 
     fn select_iter(&'a self, rank: usize, value: <Self as Vector>::Item) -> Self::ValueIter {
